@@ -70,7 +70,7 @@ class MacroNode(Node):
         assert isinstance(self.token, TagToken)
         args = " " + ", ".join(str(p) for p in self.args.values()) if self.args else ""
         return (
-            f"{{%{self.token.wc[0]} macro {self.name}{args} {self.token.wc[1]}%}}"
+            f"{{%{self.token.wc[0]} macro {self.name.as_source()}{args} {self.token.wc[1]}%}}"
             f"{self.block}"
             f"{{%{self.end_tag_token.wc[0]} endmacro {self.end_tag_token.wc[1]}%}}"
         )
@@ -150,7 +150,7 @@ class CallNode(Node):
         args = " " + ", ".join(
             [*(str(arg) for arg in self.args), *(str(arg) for arg in self.kwargs)]
         )
-        return f"{{%{self.token.wc[0]} call {self.name}{args} {self.token.wc[1]}%}}"
+        return f"{{%{self.token.wc[0]} call {self.name.as_source()}{args} {self.token.wc[1]}%}}"
 
     def render_to_output(self, context: RenderContext, buffer: TextIO) -> int:
         """Render the node to the output buffer."""
